@@ -38,6 +38,15 @@ def verify_function(eng, qualname):
     if c is None:
         raise ContractError("no contract for " + qualname)
     mod, fdef = eng.repo.find_function(qualname)
+    from . import rename
+    cur_locals = rename.local_names(fdef)
+    ref_locals = (getattr(eng, 'ref_locals', None) or {}).get(qualname)
+    if ref_locals and ref_locals != cur_locals:
+        ren = rename.mapping(ref_locals, cur_locals, (getattr(eng, 'ref_loopvars', None) or {}).get(qualname), rename.loop_targets(fdef))
+        if ren:
+            c = rename.adapt(c, ren)
+            eng.assumed.add("locals of %s renamed since the reference tree; loop contracts re-targeted: %s" % (
+                qualname, ', '.join('%s->%s' % kv for kv in sorted(ren.items()))))
     f = Frame(mod, fdef, c, qualname)
     eng.frame = f
     n0 = len(eng.obls)
@@ -135,7 +144,7 @@ def verify_function(eng, qualname):
     sha = mod.sha(fdef) if not deps else hashlib.sha256((mod.sha(fdef) + ''.join(deps)).encode()).hexdigest()[:16]
     adeps = sorted(getattr(f, 'inlined_ast_shas', ()))
     ast_sha = hashlib.sha256((mod.ast_sha(fdef) + ''.join(adeps)).encode()).hexdigest()[:16]
-    return dict(obligations=obls, sha=sha, ast_sha=ast_sha, entry=(f.entry_env, f.entry_heap), lines=(fdef.lineno, fdef.end_lineno), paths=len(outs),
+    return dict(obligations=obls, sha=sha, ast_sha=ast_sha, locals=cur_locals, loopvars=rename.loop_targets(fdef), entry=(f.entry_env, f.entry_heap), lines=(fdef.lineno, fdef.end_lineno), paths=len(outs),
                 file=mod.path)
 
 
